@@ -1,7 +1,6 @@
 package rules
 
 import (
-	"fmt"
 	"go/constant"
 	"go/token"
 	"go/types"
@@ -185,581 +184,6 @@ func c02LoopOver(fn *ssa.Function, coll ssa.Value) []*an.Loop {
 		}
 	}
 	return out
-}
-
-// ---------------------------------------------------------------------------------------------
-// Q1 — source-unique quorums
-
-type c02Q1 struct {
-	c    *rt.Ctx
-	memo map[string]int // 1 yes, 2 no, 3 in progress
-}
-
-// c02Threshold classifies v as a quorum threshold: "quorum" (Quorum()), "f+1" (Faulty()+1),
-// "f" (Faulty()), "derived" (other arithmetic over one of them); ok=false if unrelated.
-func c02Threshold(v ssa.Value) (string, bool) {
-	v = an.Unwrap(v)
-	if call, ok := v.(*ssa.Call); ok && !call.Call.IsInvoke() && call.Call.StaticCallee() != nil {
-		switch c02Callee(&call.Call) {
-		case c02P + ".Definition.Quorum":
-			return "quorum", true
-		case c02P + ".Definition.Faulty":
-			return "f", true
-		}
-		return "", false
-	}
-	if bin, ok := v.(*ssa.BinOp); ok && !c02IsCmp(bin.Op) {
-		kx, okx := c02Threshold(bin.X)
-		ky, oky := c02Threshold(bin.Y)
-		if !okx && !oky {
-			return "", false
-		}
-		if bin.Op == token.ADD {
-			if n, isC := an.ConstInt(bin.Y); okx && kx == "f" && isC && n == 1 {
-				return "f+1", true
-			}
-			if n, isC := an.ConstInt(bin.X); oky && ky == "f" && isC && n == 1 {
-				return "f+1", true
-			}
-		}
-		return "derived", true
-	}
-	return "", false
-}
-
-// uniqCallGuard: block `at` lies on the true edge of `u(arg)` where u is the closure returned by
-// uniqSource() and argOK(arg); the uniqSource() call must not lie in any of the given loops
-// (a filter re-created on every iteration filters nothing).
-func (q *c02Q1) uniqGuard(fn *ssa.Function, at *ssa.BasicBlock, argOK func(ssa.Value) bool, scope []*an.Loop) (bool, string) {
-	why := "no `uniq(elem)` test on the path to the accumulation"
-	for _, in := range an.Instrs(fn, false) {
-		u, ok := in.(*ssa.Call)
-		if !ok || u.Call.IsInvoke() || len(u.Call.Args) != 1 {
-			continue
-		}
-		mk := c02Static(an.Resolve(u.Call.Value), "uniqSource")
-		if mk == nil {
-			continue
-		}
-		if !argOK(u.Call.Args[0]) {
-			why = "uniq is applied to a different message than the one accumulated"
-			continue
-		}
-		inScope := false
-		for _, l := range scope {
-			if l.Body[mk.Block()] {
-				inScope = true
-			}
-		}
-		if inScope {
-			why = "the uniq filter is re-created inside the accumulating loop"
-			continue
-		}
-		for _, cd := range an.CondsOn(fn, u) {
-			if cd.Other != nil {
-				continue
-			}
-			t := cd.Succ(true)
-			idx := 0
-			if cd.If.Block().Succs[1] == t {
-				idx = 1
-			}
-			if c02EdgeDom(cd.If.Block(), idx, at) {
-				return true, "on the true edge of uniq(elem)"
-			}
-		}
-		why = "accumulation is not confined to the true edge of uniq(elem)"
-	}
-	return false, why
-}
-
-// phiWeb collects the phi web of v and its non-phi inputs.
-func c02PhiWeb(v ssa.Value) (web map[*ssa.Phi]bool, inputs []ssa.Value) {
-	web = map[*ssa.Phi]bool{}
-	var walk func(x ssa.Value)
-	walk = func(x ssa.Value) {
-		if p, ok := x.(*ssa.Phi); ok {
-			if web[p] {
-				return
-			}
-			web[p] = true
-			for _, e := range p.Edges {
-				walk(e)
-			}
-			return
-		}
-		inputs = append(inputs, x)
-	}
-	walk(v)
-	return
-}
-
-func c02WebLoops(fn *ssa.Function, web map[*ssa.Phi]bool) []*an.Loop {
-	var out []*an.Loop
-	for _, l := range an.Loops(fn) {
-		for p := range web {
-			if p.Block() == l.Header {
-				out = append(out, l)
-				break
-			}
-		}
-	}
-	return out
-}
-
-// sliceUnique: v holds at most one message per source.
-func (q *c02Q1) sliceUnique(fn *ssa.Function, v ssa.Value) (bool, string) {
-	v = an.Unwrap(v)
-	switch x := v.(type) {
-	case *ssa.Call:
-		if f := x.Call.StaticCallee(); f != nil && !x.Call.IsInvoke() && an.Orig(f).Pkg == fn.Pkg {
-			if q.returnsUnique(an.Orig(f), 0) {
-				return true, "result of source-unique " + an.Orig(f).Name()
-			}
-			return false, an.Orig(f).Name() + " does not return a source-unique list"
-		}
-		return false, "result of a call that is not summarised source-unique"
-	case *ssa.Extract:
-		if call, ok := x.Tuple.(*ssa.Call); ok {
-			if f := call.Call.StaticCallee(); f != nil && !call.Call.IsInvoke() && an.Orig(f).Pkg == fn.Pkg {
-				if q.returnsUnique(an.Orig(f), x.Index) {
-					return true, "result of source-unique " + an.Orig(f).Name()
-				}
-				return false, an.Orig(f).Name() + " does not return a source-unique list"
-			}
-		}
-		return false, "tuple component of unknown origin"
-	case *ssa.Phi:
-		web, inputs := c02PhiWeb(x)
-		loops := c02WebLoops(fn, web)
-		if len(loops) == 0 {
-			return false, "accumulator is not loop-carried"
-		}
-		for _, in := range inputs {
-			if an.IsNilConst(in) {
-				continue
-			}
-			call, ok := in.(*ssa.Call)
-			if !ok {
-				return false, "accumulator receives a value that is neither nil nor an append"
-			}
-			b, ok := call.Call.Value.(*ssa.Builtin)
-			if !ok || b.Name() != "append" {
-				return false, "accumulator receives a value that is neither nil nor an append"
-			}
-			base, ok := call.Call.Args[0].(*ssa.Phi)
-			if !ok || !web[base] {
-				return false, "append does not extend the accumulator itself"
-			}
-			elems := appendedElems(call)
-			if len(elems) != 1 {
-				return false, "append adds several messages at once (not one tested message)"
-			}
-			e := elems[0]
-			ok2, why := q.uniqGuard(fn, call.Block(), func(a ssa.Value) bool { return a == e || an.Equiv(a, e) }, loops)
-			if !ok2 {
-				return false, why
-			}
-		}
-		return true, "every append is on the true edge of uniq(elem)"
-	}
-	return false, "collection of unknown origin"
-}
-
-func (q *c02Q1) returnsUnique(f *ssa.Function, idx int) bool {
-	key := fmt.Sprintf("%s#%d", an.FuncName(f), idx)
-	switch q.memo[key] {
-	case 1:
-		return true
-	case 2, 3:
-		return false
-	}
-	q.memo[key] = 3
-	rets := an.Returns(f)
-	ok := len(rets) > 0
-	for _, r := range rets {
-		if idx >= len(r.Results) {
-			ok = false
-			break
-		}
-		if an.IsNilConst(r.Results[idx]) {
-			continue
-		}
-		if u, _ := q.sliceUnique(f, r.Results[idx]); !u {
-			ok = false
-			break
-		}
-	}
-	if ok {
-		q.memo[key] = 1
-	} else {
-		q.memo[key] = 2
-	}
-	return ok
-}
-
-// counterUnique: v is a loop-carried counter incremented by one only on the true edge of uniq(elem).
-func (q *c02Q1) counterUnique(fn *ssa.Function, v ssa.Value) (bool, string) {
-	p, ok := an.Unwrap(v).(*ssa.Phi)
-	if !ok {
-		return false, "count of unknown origin"
-	}
-	web, inputs := c02PhiWeb(p)
-	loops := c02WebLoops(fn, web)
-	if len(loops) == 0 {
-		return false, "counter is not loop-carried"
-	}
-	for _, in := range inputs {
-		if n, ok := an.ConstInt(in); ok && n == 0 {
-			continue
-		}
-		bin, ok := in.(*ssa.BinOp)
-		if !ok || bin.Op != token.ADD {
-			return false, "counter receives a value that is neither 0 nor counter+1"
-		}
-		base, okb := bin.X.(*ssa.Phi)
-		n, okn := an.ConstInt(bin.Y)
-		if !okb || !web[base] || !okn || n != 1 {
-			return false, "counter receives a value that is neither 0 nor counter+1"
-		}
-		l := an.InnermostLoop(fn, bin.Block())
-		if l == nil {
-			return false, "increment outside a loop"
-		}
-		ok2, why := q.uniqGuard(fn, bin.Block(), func(a ssa.Value) bool { return l.ElemOf(a) }, loops)
-		if !ok2 {
-			return false, why
-		}
-	}
-	return true, "every increment is on the true edge of uniq(elem)"
-}
-
-// mapUnique: v is a map built in fn all of whose insertions are keyed by Source() of the stored message.
-func (q *c02Q1) mapUnique(fn *ssa.Function, v ssa.Value) (bool, string) {
-	seen := map[ssa.Value]bool{}
-	var local func(x ssa.Value) bool
-	local = func(x ssa.Value) bool {
-		x = an.Unwrap(x)
-		if seen[x] {
-			return true
-		}
-		seen[x] = true
-		switch y := x.(type) {
-		case *ssa.MakeMap:
-			return true
-		case *ssa.Phi:
-			for _, e := range y.Edges {
-				if !local(e) {
-					return false
-				}
-			}
-			return true
-		case *ssa.Lookup:
-			return c02OuterOK(fn, y.X, local)
-		case *ssa.Extract:
-			switch t := y.Tuple.(type) {
-			case *ssa.Lookup:
-				return y.Index == 0 && c02OuterOK(fn, t.X, local)
-			case *ssa.Next:
-				if r, ok := t.Iter.(*ssa.Range); ok && y.Index == 2 {
-					return c02OuterOK(fn, r.X, local)
-				}
-			}
-		}
-		return false
-	}
-	if !local(v) {
-		return false, "counted map is not built locally (make) in this function"
-	}
-	n := 0
-	for _, in := range an.Instrs(fn, true) {
-		up, ok := in.(*ssa.MapUpdate)
-		if !ok || !types.Identical(up.Map.Type(), v.Type()) {
-			continue
-		}
-		n++
-		recv, ok := c02MsgCall(up.Key, "Source")
-		if !ok {
-			return false, "an insertion into the counted map is not keyed by msg.Source()"
-		}
-		if an.Unwrap(up.Value) != recv {
-			return false, "the message stored is not the one whose Source() is the key"
-		}
-	}
-	if n == 0 {
-		return false, "no insertion into the counted map found"
-	}
-	return true, fmt.Sprintf("map made locally; all %d insertion(s) keyed by msg.Source() of the stored message", n)
-}
-
-// c02OuterOK: m is a map made in fn and everything stored in it satisfies pred.
-func c02OuterOK(fn *ssa.Function, m ssa.Value, pred func(ssa.Value) bool) bool {
-	if _, ok := an.Unwrap(m).(*ssa.MakeMap); !ok {
-		return false
-	}
-	for _, in := range an.Instrs(fn, true) {
-		if up, ok := in.(*ssa.MapUpdate); ok && up.Map == an.Unwrap(m) {
-			if !pred(up.Value) {
-				return false
-			}
-		}
-	}
-	return true
-}
-
-// forallUnique (idiom d): every accepting return reachable from the "reached" edge of the
-// comparison lies after a full loop over coll whose body leaves on !uniq(elem).
-func (q *c02Q1) forallUnique(fn *ssa.Function, coll ssa.Value, reached []*ssa.BasicBlock) (bool, string) {
-	if len(reached) == 0 {
-		return false, "comparison over an unfiltered collection is not branched on"
-	}
-	resIdx := -1
-	res := fn.Signature.Results()
-	for i := 0; i < res.Len(); i++ {
-		if b, ok := res.At(i).Type().Underlying().(*types.Basic); ok && b.Kind() == types.Bool {
-			resIdx = i
-		}
-	}
-	if resIdx < 0 {
-		return false, "unfiltered collection counted in a function without a boolean verdict"
-	}
-	loops := c02LoopOver(fn, coll)
-	var sinks []*ssa.Return
-	for _, r := range c02AcceptRets(fn, resIdx) {
-		for _, s := range reached {
-			if an.ReachBlocks(s, nil)[r.Block()] {
-				sinks = append(sinks, r)
-				break
-			}
-		}
-	}
-	if len(sinks) == 0 {
-		return false, "no accepting return depends on the comparison"
-	}
-	for _, r := range sinks {
-		good := false
-		why := "no loop over the counted collection rejects repeated sources before accepting"
-		for _, l := range loops {
-			for _, in := range an.Instrs(fn, false) {
-				u, ok := in.(*ssa.Call)
-				if !ok || !l.Body[u.Block()] || len(u.Call.Args) != 1 || u.Call.IsInvoke() {
-					continue
-				}
-				mk := c02Static(an.Resolve(u.Call.Value), "uniqSource")
-				if mk == nil || l.Body[mk.Block()] || !l.ElemOf(u.Call.Args[0]) {
-					continue
-				}
-				for _, cd := range an.CondsOn(fn, u) {
-					if cd.Other != nil {
-						continue
-					}
-					ok2, w := an.ForallGuard(l, cd.If, cd.Succ(false), r)
-					if ok2 {
-						good = true
-					} else {
-						why = w
-					}
-				}
-			}
-		}
-		if !good {
-			return false, why
-		}
-	}
-	return true, "accepting returns lie after a full loop rejecting on !uniq(elem)"
-}
-
-// c02Expect freezes which threshold each counting function uses (QBFT: every rule needs a
-// quorum except the f+1 round-change jump, Algorithm 3:5).
-var c02Expect = map[string]string{
-	"classify":               "quorum", // quorum PREPARE / COMMIT / ROUND-CHANGE
-	"containsJustifiedQrc":   "quorum", // Algorithm 4:1
-	"isJustifiedDecided":     "quorum", // quorum COMMITs
-	"isJustifiedRoundChange": "quorum", // quorum PREPAREs justify pr/pv
-	"quorumNullPrepared":     "quorum", // J1
-	"getPrepareQuorums":      "quorum", // J2
-	"getJustifiedQrc":        "quorum", // J2
-	"getSingleJustifiedPrPv": "quorum", // J2
-	"getFPlus1RoundChanges":  "f+1",    // Algorithm 3:5
-	"nextMinRound":           "f+1",    // sanity check of Frc
-}
-
-func c02Q1Rule(c *rt.Ctx) {
-	q := &c02Q1{c: c, memo: map[string]int{}}
-	for _, fn := range an.PkgFuncs(c.SSAPkg(c02P)) {
-		ord := map[string]int{}
-		for _, in := range an.Instrs(fn, false) {
-			bin, ok := in.(*ssa.BinOp)
-			if !ok || !c02IsCmp(bin.Op) {
-				continue
-			}
-			count, op := bin.X, bin.Op
-			kind, isT := c02Threshold(bin.Y)
-			if !isT {
-				if kind, isT = c02Threshold(bin.X); !isT {
-					continue
-				}
-				count, op = bin.Y, c02Flip(bin.Op)
-			}
-			name := strings.TrimPrefix(an.FuncName(fn), c02P+".")
-			ord[name]++
-			key := fmt.Sprintf("%s quorum-comparison #%d", name, ord[name])
-			pos := bin.Pos()
-			if !pos.IsValid() {
-				pos = posOf(bin)
-			}
-			// normalise `> f` to `>= f+1`
-			if kind == "f" {
-				switch op {
-				case token.GTR:
-					kind, op = "f+1", token.GEQ
-				case token.LEQ:
-					kind, op = "f+1", token.LSS
-				default:
-					c.Bad(key, pos, "count is compared with Faulty() itself, not Faulty()+1")
-					continue
-				}
-			}
-			if kind == "derived" {
-				c.Bad(key, pos, "count is compared with an expression derived from Quorum()/Faulty() that is neither Quorum() nor Faulty()+1")
-				continue
-			}
-			want, known := c02Expect[name]
-			if !known {
-				c.Unsure(key, pos, "quorum comparison in a function that is not in the frozen threshold table")
-				continue
-			}
-			if want != kind {
-				c.Bad(key, pos, fmt.Sprintf("threshold is %s where the protocol rule needs %s", kind, want))
-				continue
-			}
-			// edges on which the threshold is reached
-			var reached, notReached []*ssa.BasicBlock
-			okOp := true
-			for _, iff := range c02IfOf(bin) {
-				switch op {
-				case token.GEQ, token.EQL:
-					reached = append(reached, iff.Block().Succs[0])
-					notReached = append(notReached, iff.Block().Succs[1])
-				case token.LSS:
-					reached = append(reached, iff.Block().Succs[1])
-					notReached = append(notReached, iff.Block().Succs[0])
-				default:
-					okOp = false
-				}
-			}
-			if op != token.GEQ && op != token.EQL && op != token.LSS {
-				okOp = false
-			}
-			if !okOp {
-				c.Unsure(key, pos, "comparison form not recognised (expected count >= T, count < T or count == T)")
-				continue
-			}
-			// classify the counted operand
-			var good bool
-			var why string
-			if arg := c02LenArg(count); arg != nil {
-				if an.IsMapType(arg.Type()) {
-					good, why = q.mapUnique(fn, arg)
-				} else {
-					good, why = q.sliceUnique(fn, arg)
-					if !good {
-						// sanity checks that only panic are exempt
-						allPanic := len(notReached) > 0
-						for _, b := range notReached {
-							if !c02EndsInPanic(b) {
-								allPanic = false
-							}
-						}
-						if allPanic {
-							c.Good(key, pos, "sanity check: the not-reached edge only panics")
-							continue
-						}
-						if g, w := q.forallUnique(fn, arg, reached); g {
-							good, why = g, w
-						} else if _, isPhi := an.Unwrap(arg).(*ssa.Phi); !isPhi {
-							why = why + "; " + w
-						}
-					}
-				}
-			} else {
-				good, why = q.counterUnique(fn, count)
-			}
-			if good {
-				c.Good(key, pos, why)
-			} else {
-				c.Bad(key, pos, "counted collection is not source-unique: "+why)
-			}
-		}
-	}
-	// the uniqSource closure itself
-	us := c.Fn(c02P + ".uniqSource")
-	if len(us.AnonFuncs) != 1 {
-		c.Bail("uniqSource: expected exactly one function literal")
-	}
-	cl := us.AnonFuncs[0]
-	if len(cl.Params) != 1 || len(cl.FreeVars) != 1 {
-		c.Bail("uniqSource closure: unexpected shape")
-	}
-	msgP := cl.Params[0]
-	isDedup := func(m ssa.Value) bool {
-		ld, ok := an.Unwrap(m).(*ssa.UnOp)
-		return ok && ld.Op == token.MUL && ld.X == ssa.Value(cl.FreeVars[0])
-	}
-	rets := c02AcceptRets(cl, 0)
-	if len(rets) == 0 {
-		c.Bail("uniqSource closure never accepts")
-	}
-	for _, r := range rets {
-		if b, isC := c02ConstBool(r.Results[0]); !isC || !b {
-			c.Unsure("uniqSource closure accepting return", posOf(r), "closure returns a computed verdict; only `return true` after test-and-set of dedup[msg.Source()] is recognised")
-			continue
-		}
-		tested, set := false, false
-		for _, in := range an.Instrs(cl, false) {
-			switch x := in.(type) {
-			case *ssa.Lookup:
-				if !isDedup(x.X) || !c02IsMsgCallOn(x.Index, "Source", msgP) {
-					continue
-				}
-				var tv ssa.Value = x
-				if x.CommaOk { // `_, ok := dedup[src]`: presence is the test (entries are only ever set to true)
-					tv = nil
-					for _, ref := range *x.Referrers() {
-						if ex, ok := ref.(*ssa.Extract); ok && ex.Index == 1 {
-							tv = ex
-						}
-					}
-					if tv == nil {
-						continue
-					}
-				}
-				for _, cd := range an.CondsOn(cl, tv) {
-					if cd.Other == nil && cd.Succ(false).Dominates(r.Block()) && !an.CanReach(cd.Succ(true), r.Block(), nil) {
-						tested = true
-					}
-				}
-			case *ssa.MapUpdate:
-				if b, isC := c02ConstBool(x.Value); isDedup(x.Map) && c02IsMsgCallOn(x.Key, "Source", msgP) && isC && b && an.Dominates(x, r) {
-					set = true
-				}
-			}
-		}
-		c.Check("uniqSource closure tests dedup[msg.Source()] before accepting", posOf(r), tested, "the closure can return true for a source already seen")
-		c.Check("uniqSource closure records dedup[msg.Source()] before accepting", posOf(r), set, "the closure returns true without recording the source: the same source is accepted again")
-	}
-	// the free variable is a fresh map per uniqSource() call
-	fresh := false
-	for _, in := range an.Instrs(us, false) {
-		if mc, ok := in.(*ssa.MakeClosure); ok && mc.Fn == ssa.Value(cl) {
-			if al, ok := mc.Bindings[0].(*ssa.Alloc); ok {
-				if _, ok := an.UniqueStore(al).(*ssa.MakeMap); ok {
-					fresh = true
-				}
-			}
-		}
-	}
-	c.Check("uniqSource dedup map is made per call", us.Pos(), fresh, "the dedup map is not a fresh map made in uniqSource")
 }
 
 // ---------------------------------------------------------------------------------------------
@@ -992,73 +416,6 @@ func (r *c02Run) msgType(name string) int64 { return constOf(r.c, c02P, name) }
 // ---------------------------------------------------------------------------------------------
 // Q2 — justified before buffered/classified
 
-func c02Q2Rule(c *rt.Ctx) {
-	r := c02NewRun(c)
-	bufCell := r.cellOf(r.classify.Call.Args[4])
-	if bufCell == nil {
-		c.Bail("Run: the buffer passed to classify is not a state cell")
-	}
-	type sink struct {
-		in   ssa.Instruction
-		what string
-		msg  bool
-	}
-	sinks := []sink{{r.classify, "classify", r.classify.Call.Args[5] == r.recvMsg}}
-	writesBuf := func(f *ssa.Function) bool {
-		for _, in := range an.Instrs(f, false) {
-			if up, ok := in.(*ssa.MapUpdate); ok && r.cellOf(up.Map) == bufCell {
-				return true
-			}
-		}
-		return false
-	}
-	for _, f := range r.all {
-		if f == r.fn || !writesBuf(f) {
-			continue
-		}
-		for _, s := range r.callSites(f) {
-			if s.Parent() != r.fn {
-				c.Unsure("Run buffer write via nested closure", s.Pos(), "buffer-writing closure is called from another closure")
-				continue
-			}
-			has := false
-			for _, a := range s.Common().Args {
-				if a == r.recvMsg {
-					has = true
-				}
-			}
-			sinks = append(sinks, sink{s, "buffer write (" + strings.TrimPrefix(an.FuncName(f), c02P+".") + ")", has})
-		}
-	}
-	for _, in := range an.Instrs(r.fn, false) {
-		if up, ok := in.(*ssa.MapUpdate); ok && r.cellOf(up.Map) == bufCell {
-			sinks = append(sinks, sink{up, "buffer write (inline)", true})
-		}
-	}
-	guards := an.Calls(r.fn, func(cc *ssa.CallCommon) bool { return c02Callee(cc) == c02P+".isJustified" }, false)
-	for _, s := range sinks {
-		key := "Run isJustified→" + s.what
-		if !s.msg {
-			c.Unsure(key, posOf(s.in), "the sink does not consume the message received from Transport.Receive")
-			continue
-		}
-		good, why := false, "no isJustified call on the received message precedes the sink"
-		for _, g := range guards {
-			if len(g.Common().Args) != 4 || g.Common().Args[2] != r.recvMsg {
-				why = "isJustified is applied to a different message"
-				continue
-			}
-			ok, w := an.Guarded(g, s.in, an.GuardOpt{BoolIdx: 0, BoolWant: true, NoErr: true})
-			if ok {
-				good = true
-			} else {
-				why = w
-			}
-		}
-		c.Check(key, posOf(s.in), good, "unjustified message reaches "+s.what+": "+why)
-	}
-}
-
 // ---------------------------------------------------------------------------------------------
 // Q3 — dedup key re-recorded between round change and PREPARE
 
@@ -1093,163 +450,6 @@ func c02StructLit(v ssa.Value) map[string]ssa.Value {
 		}
 	}
 	return out
-}
-
-func c02Q3Rule(c *rt.Ctx) {
-	r := c02NewRun(c)
-	// the dedup cell: the only state cell holding a map keyed by dedupKey
-	var dedup *ssa.Alloc
-	for _, in := range an.Instrs(r.fn, false) {
-		al, ok := in.(*ssa.Alloc)
-		if !ok {
-			continue
-		}
-		if m, ok := al.Type().(*types.Pointer).Elem().Underlying().(*types.Map); ok && an.TypeName(m.Key()) == c02P+".dedupKey" {
-			if dedup != nil {
-				c.Bail("Run: several dedupKey maps")
-			}
-			dedup = al
-		}
-	}
-	if dedup == nil {
-		c.Bail("Run: dedup-rule map not found")
-	}
-	upon := constOf(c, c02P, "UponJustifiedPrePrepare")
-	prepare := r.msgType("MsgPrepare")
-	// wipers: closures (or inline stores) replacing the dedup map after the initial make
-	isWipe := func(in ssa.Instruction) bool {
-		switch x := in.(type) {
-		case *ssa.Store:
-			return r.cellAddr(x.Addr) == dedup && !(x.Block().Index == 0 && x.Parent() == r.fn)
-		case ssa.CallInstruction:
-			f := r.closureOf(x.Common().Value)
-			if f == nil || x.Common().IsInvoke() {
-				return false
-			}
-			for _, in2 := range an.Instrs(f, false) {
-				if st, ok := in2.(*ssa.Store); ok && r.cellAddr(st.Addr) == dedup {
-					return true
-				}
-			}
-		}
-		return false
-	}
-	// recorders: dedup[{rule, msg.Round()}] = true inline, or a call of a closure doing so with (rule, msg.Round())
-	goodKey := func(rule, round ssa.Value) (bool, string) {
-		ruleOK := rule == r.ruleV
-		if n, ok := an.ConstInt(rule); ok && n == upon {
-			ruleOK = true
-		}
-		if !ruleOK {
-			return false, "key does not carry the triggered rule"
-		}
-		if !c02IsMsgCallOn(round, "Round", r.recvMsg) {
-			return false, "key does not carry msg.Round() of the received message"
-		}
-		return true, ""
-	}
-	var lastWhy string
-	var unsure bool
-	isRecord := func(in ssa.Instruction) bool {
-		switch x := in.(type) {
-		case *ssa.MapUpdate:
-			if r.cellOf(x.Map) != dedup {
-				return false
-			}
-			if b, ok := c02ConstBool(x.Value); !ok || !b {
-				lastWhy = "dedup entry is not set to true"
-				return false
-			}
-			lit := c02StructLit(x.Key)
-			if lit == nil || lit["UponRule"] == nil || lit["Round"] == nil {
-				lastWhy = "dedup key is not a {UponRule, Round} literal"
-				return false
-			}
-			if r.cellOf(lit["Round"]) != nil {
-				lastWhy = "dedup key uses a state cell for the round; equality with msg.Round() is not decided"
-				unsure = true
-				return false
-			}
-			ok, why := goodKey(lit["UponRule"], lit["Round"])
-			if !ok {
-				lastWhy = why
-			}
-			return ok
-		case ssa.CallInstruction:
-			f := r.closureOf(x.Common().Value)
-			if f == nil || x.Common().IsInvoke() || len(f.Params) != 2 || len(x.Common().Args) != 2 {
-				return false
-			}
-			for _, in2 := range an.Instrs(f, false) {
-				up, ok := in2.(*ssa.MapUpdate)
-				if !ok || r.cellOf(up.Map) != dedup {
-					continue
-				}
-				lit := c02StructLit(up.Key)
-				if b, okb := c02ConstBool(up.Value); !okb || !b || lit == nil || lit["UponRule"] != ssa.Value(f.Params[0]) || lit["Round"] != ssa.Value(f.Params[1]) {
-					continue
-				}
-				ok2, _ := goodKey(x.Common().Args[0], x.Common().Args[1])
-				return ok2
-			}
-		}
-		return false
-	}
-	var prepares []c02Bcast
-	for _, b := range r.bcasts() {
-		if n, ok := an.ConstInt(b.args[1]); ok && n == prepare {
-			if b.open {
-				c.Unsure("Run PREPARE broadcast", b.inner.Pos(), "PREPARE broadcast not attributable to a call site in Run")
-				continue
-			}
-			prepares = append(prepares, b)
-		} else if !ok {
-			c.Unsure("Run broadcast with computed type", b.site.Pos(), "message type of a broadcast is not a constant")
-		}
-	}
-	if len(prepares) == 0 {
-		c.Bail("Run: no PREPARE broadcast found")
-	}
-	var wipes []ssa.Instruction
-	for _, in := range an.Instrs(r.fn, false) {
-		if isWipe(in) {
-			wipes = append(wipes, in)
-		}
-	}
-	if len(wipes) == 0 {
-		c.Bail("Run: no round change wiping the dedup map found")
-	}
-	for _, p := range prepares {
-		// the PREPARE must carry the value of the received message
-		c.Check("Run PREPARE carries msg.Value()", p.site.Pos(), c02IsMsgCallOn(p.args[5], "Value", r.recvMsg),
-			"the PREPARE broadcast does not carry the value of the pre-prepare just received")
-		n := 0
-		for _, w := range wipes {
-			lastWhy, unsure = "", false
-			path, found := c02PathAvoiding(w, p.site, func(in ssa.Instruction) bool { return in == w || isRecord(in) })
-			if !found && !c02Reaches(w, p.site) {
-				continue
-			}
-			n++
-			key := "Run round-change→re-record→PREPARE"
-			if found {
-				detail := "after the round change wiped the dedup map a PREPARE is broadcast without re-recording {rule, msg.Round()}: a second pre-prepare of the round triggers a second PREPARE; path " + an.PathString(c.P, path)
-				if lastWhy != "" {
-					detail += " (" + lastWhy + ")"
-				}
-				if unsure {
-					c.Unsure(key, posOf(w), detail)
-				} else {
-					c.Bad(key, posOf(w), detail)
-				}
-			} else {
-				c.Good(key, posOf(w), "every path from the wipe to the PREPARE re-records the key")
-			}
-		}
-		if n == 0 {
-			c.Unsure("Run round-change→re-record→PREPARE", p.site.Pos(), "no round change can reach the PREPARE broadcast")
-		}
-	}
 }
 
 // c02Reaches: some CFG path leads from just after a to b.
@@ -1412,17 +612,6 @@ func c02Filter(v ssa.Value, depth int) (c02FilterSpec, bool) {
 		value: subst(inner.value), pr: subst(inner.pr), pv: subst(inner.pv)}, true
 }
 
-func c02Q4Rule(c *rt.Ctx) {
-	// (a) isJustifiedRoundChange: every accepted PREPARE was tested for type, round == pr, value == pv
-	c02Q4RoundChange(c)
-	// (b) isJustifiedDecided
-	c02Q4Decided(c)
-	// (c) isJustifiedPrePrepare
-	c02Q4PrePrepare(c)
-	// (d) containsJustifiedQrc
-	c02Q4Qrc(c)
-}
-
 func c02ParamOfType(c *rt.Ctx, fn *ssa.Function, typ string) *ssa.Parameter {
 	var out *ssa.Parameter
 	for _, p := range fn.Params {
@@ -1439,565 +628,8 @@ func c02ParamOfType(c *rt.Ctx, fn *ssa.Function, typ string) *ssa.Parameter {
 	return out
 }
 
-func c02Q4RoundChange(c *rt.Ctx) {
-	fn := c.Fn(c02P + ".isJustifiedRoundChange")
-	msg := c02ParamOfType(c, fn, c02P+".Msg")
-	prepareT := constOf(c, c02P, "MsgPrepare")
-	var loops []*an.Loop
-	for _, l := range an.Loops(fn) {
-		if rc := l.RangeColl(); rc != nil && c02IsMsgCallOn(rc, "Justification", msg) {
-			loops = append(loops, l)
-		}
-	}
-	if len(loops) != 1 {
-		c.Bail("isJustifiedRoundChange: expected one loop over msg.Justification(), found %d", len(loops))
-	}
-	l := loops[0]
-	var sinks []*ssa.Return
-	for _, r := range c02AcceptRets(fn, 0) {
-		if an.ReachBlocks(l.Header, nil)[r.Block()] {
-			sinks = append(sinks, r)
-		}
-	}
-	if len(sinks) == 0 {
-		c.Bail("isJustifiedRoundChange: no accepting return after the justification loop")
-	}
-	type test struct {
-		name  string
-		elemM string
-		other func(ssa.Value) bool
-		what  string
-	}
-	tests := []test{
-		{"type", "Type", func(v ssa.Value) bool { n, ok := an.ConstInt(v); return ok && n == prepareT }, "a justification message that is not a PREPARE is accepted"},
-		{"round", "Round", func(v ssa.Value) bool { return c02IsMsgCallOn(v, "PreparedRound", msg) }, "a PREPARE of a round other than the claimed prepared round is accepted"},
-		{"value", "Value", func(v ssa.Value) bool { return c02IsMsgCallOn(v, "PreparedValue", msg) }, "a PREPARE for a value other than the claimed prepared value is accepted"},
-	}
-	for _, t := range tests {
-		for _, r := range sinks {
-			good, why := false, "no such test of the loop element"
-			for _, b := range fn.Blocks {
-				if !l.Body[b] {
-					continue
-				}
-				iff, ok := b.Instrs[len(b.Instrs)-1].(*ssa.If)
-				if !ok {
-					continue
-				}
-				bin, ok := iff.Cond.(*ssa.BinOp)
-				if !ok || (bin.Op != token.EQL && bin.Op != token.NEQ) {
-					continue
-				}
-				x, y := bin.X, bin.Y
-				if _, ok := c02MsgCall(x, t.elemM); !ok || !t.other(y) {
-					x, y = y, x
-				}
-				recv, ok := c02MsgCall(x, t.elemM)
-				if !ok || !t.other(y) || !l.ElemOf(recv) {
-					continue
-				}
-				fail := b.Succs[0] // != : true edge is the mismatch
-				if bin.Op == token.EQL {
-					fail = b.Succs[1]
-				}
-				ok2, w := an.ForallGuard(l, iff, fail, r)
-				if ok2 {
-					good = true
-				} else {
-					why = w
-				}
-			}
-			c.Check("isJustifiedRoundChange every PREPARE tested for "+t.name, posOf(r), good, t.what+": "+why)
-		}
-	}
-}
-
-func c02Q4Decided(c *rt.Ctx) {
-	fn := c.Fn(c02P + ".isJustifiedDecided")
-	msg := c02ParamOfType(c, fn, c02P+".Msg")
-	commitT := constOf(c, c02P, "MsgCommit")
-	rets := c02AcceptRets(fn, 0)
-	if len(rets) == 0 {
-		c.Bail("isJustifiedDecided never accepts")
-	}
-	for _, r := range rets {
-		// the verdict must be (or be guarded by) len(filter(...)) >= Quorum()
-		var cmps []*ssa.BinOp
-		if bin, ok := r.Results[0].(*ssa.BinOp); ok {
-			cmps = append(cmps, bin)
-		} else {
-			for _, in := range an.Instrs(fn, false) {
-				bin, ok := in.(*ssa.BinOp)
-				if !ok {
-					continue
-				}
-				for _, iff := range c02IfOf(bin) {
-					if (bin.Op == token.GEQ && c02EdgeDom(iff.Block(), 0, r.Block())) || (bin.Op == token.LSS && c02EdgeDom(iff.Block(), 1, r.Block())) {
-						cmps = append(cmps, bin)
-					}
-				}
-			}
-		}
-		var spec *c02FilterSpec
-		for _, bin := range cmps {
-			if k, ok := c02Threshold(bin.Y); !ok || k != "quorum" || (bin.Op != token.GEQ && bin.Op != token.LSS) {
-				continue
-			}
-			if arg := c02LenArg(bin.X); arg != nil {
-				if sp, ok := c02Filter(arg, 0); ok {
-					spec = &sp
-				}
-			}
-		}
-		if spec == nil {
-			quorumCmp := false
-			for _, bin := range cmps {
-				if k, ok := c02Threshold(bin.Y); ok && k == "quorum" {
-					quorumCmp = true
-				}
-			}
-			if quorumCmp {
-				c.Unsure("isJustifiedDecided verdict", posOf(r), "the verdict depends on a quorum comparison whose counted list is not a recognisable filterMsgs call")
-			} else {
-				c.Bad("isJustifiedDecided verdict", posOf(r), "an accepting return does not depend on len(filterMsgs(...)) >= Quorum()")
-			}
-			continue
-		}
-		c.Check("isJustifiedDecided counts the message's own justification", posOf(r), c02IsMsgCallOn(spec.msgs, "Justification", msg), "the counted list is not msg.Justification()")
-		n, isC := an.ConstInt(spec.typ)
-		c.Check("isJustifiedDecided counts COMMITs", posOf(r), isC && n == commitT, "the counted messages are not filtered by type COMMIT")
-		c.Check("isJustifiedDecided filters by the message's round", posOf(r), c02IsMsgCallOn(spec.round, "Round", msg), "COMMITs are not filtered by msg.Round()")
-		c.Check("isJustifiedDecided filters by the message's value", posOf(r), spec.value != nil && c02IsMsgCallOn(spec.value, "Value", msg), "COMMITs are not filtered by msg.Value(): commits for different values add up to a quorum")
-	}
-}
-
-func c02Q4PrePrepare(c *rt.Ctx) {
-	fn := c.Fn(c02P + ".isJustifiedPrePrepare")
-	msg := c02ParamOfType(c, fn, c02P+".Msg")
-	rets := c02AcceptRets(fn, 0)
-	if len(rets) == 0 {
-		c.Bail("isJustifiedPrePrepare never accepts")
-	}
-	if len(fn.Params) != 4 {
-		c.Bail("isJustifiedPrePrepare: unexpected signature")
-	}
-	instP, cfrP := fn.Params[1], fn.Params[3]
-	// leader guard
-	var leader []ssa.CallInstruction
-	for _, ci := range an.Calls(fn, func(cc *ssa.CallCommon) bool { return c02Callee(cc) == "field:"+c02P+".Definition.IsLeader" }, false) {
-		a := ci.Common().Args
-		if len(a) == 3 && a[0] == ssa.Value(instP) && c02IsMsgCallOn(a[1], "Round", msg) && c02IsMsgCallOn(a[2], "Source", msg) {
-			leader = append(leader, ci)
-		}
-	}
-	zero := c02ZeroTests(fn, func(v ssa.Value) bool { return c02IsMsgCallOn(v, "Value", msg) })
-	for _, r := range rets {
-		good, why := false, "no IsLeader(instance, msg.Round(), msg.Source()) call"
-		for _, g := range leader {
-			ok, w := an.Guarded(g, r, an.GuardOpt{BoolIdx: 0, BoolWant: true, NoErr: true})
-			if ok {
-				good = true
-			} else {
-				why = w
-			}
-		}
-		c.Check("isJustifiedPrePrepare leader test before accepting", posOf(r), good, "a pre-prepare from a process that is not the round's leader is accepted: "+why)
-		good, why = false, "no zero-value test of msg.Value()"
-		for z, pol := range zero {
-			for _, cd := range an.CondsOn(fn, z) {
-				if cd.Other != nil {
-					continue
-				}
-				zeroSucc := cd.Succ(pol)
-				nonZero := cd.Succ(!pol)
-				if nonZero.Dominates(r.Block()) && !an.CanReach(zeroSucc, r.Block(), nil) {
-					good = true
-				} else {
-					why = "the zero-value edge can still reach the accepting return"
-				}
-			}
-		}
-		c.Check("isJustifiedPrePrepare non-zero value before accepting", posOf(r), good, "a pre-prepare with the zero value is accepted: "+why)
-	}
-	// round justification: accepting returns are only reachable through (round == 1),
-	// (round == compareFailureRound+1) or (containsJustifiedQrc ok)
-	type edge struct {
-		b *ssa.BasicBlock
-		i int
-	}
-	var accept []edge
-	var qrcEdges []edge
-	var pvs []ssa.Value
-	for _, b := range fn.Blocks {
-		iff, ok := b.Instrs[len(b.Instrs)-1].(*ssa.If)
-		if !ok {
-			continue
-		}
-		if bin, ok := iff.Cond.(*ssa.BinOp); ok && (bin.Op == token.EQL || bin.Op == token.NEQ) {
-			x, y := bin.X, bin.Y
-			if !c02IsMsgCallOn(x, "Round", msg) {
-				x, y = y, x
-			}
-			if c02IsMsgCallOn(x, "Round", msg) {
-				okY := false
-				if n, isC := an.ConstInt(y); isC && n == 1 {
-					okY = true
-				}
-				if add, isB := an.Unwrap(y).(*ssa.BinOp); isB && add.Op == token.ADD {
-					if n, isC := an.ConstInt(add.Y); isC && n == 1 && add.X == ssa.Value(cfrP) {
-						okY = true
-					}
-					if n, isC := an.ConstInt(add.X); isC && n == 1 && add.Y == ssa.Value(cfrP) {
-						okY = true
-					}
-				}
-				if okY {
-					i := 0
-					if bin.Op == token.NEQ {
-						i = 1
-					}
-					accept = append(accept, edge{b, i})
-				}
-			}
-		}
-	}
-	for _, ci := range an.Calls(fn, func(cc *ssa.CallCommon) bool { return c02Callee(cc) == c02P+".containsJustifiedQrc" }, false) {
-		a := ci.Common().Args
-		if len(a) != 3 || !c02IsMsgCallOn(a[1], "Justification", msg) || !c02IsMsgCallOn(a[2], "Round", msg) {
-			continue
-		}
-		_, okv := an.StatusOf(ci, 1)
-		if okv == nil {
-			continue
-		}
-		for _, ref := range *ci.Value().Referrers() {
-			if ex, ok := ref.(*ssa.Extract); ok && ex.Index == 0 {
-				pvs = append(pvs, ex)
-			}
-		}
-		for _, cd := range an.CondsOn(fn, okv) {
-			if cd.Other != nil {
-				continue
-			}
-			t := cd.Succ(true)
-			i := 0
-			if cd.If.Block().Succs[1] == t {
-				i = 1
-			}
-			accept = append(accept, edge{cd.If.Block(), i})
-			qrcEdges = append(qrcEdges, edge{cd.If.Block(), i})
-		}
-	}
-	isAccept := func(b *ssa.BasicBlock, i int) bool {
-		for _, e := range accept {
-			if e.b == b && e.i == i {
-				return true
-			}
-		}
-		return false
-	}
-	reach := c02ReachCut(fn.Blocks[0], isAccept)
-	for _, r := range rets {
-		c.Check("isJustifiedPrePrepare round justification", posOf(r), !reach[r.Block()],
-			"an accepting return is reachable without round == 1, round == compareFailureRound+1 or a justified quorum of ROUND-CHANGEs")
-	}
-	// returns reachable only through the Qrc edge must propose pv (or pv is null)
-	isFirstTwo := func(b *ssa.BasicBlock, i int) bool {
-		if !isAccept(b, i) {
-			return false
-		}
-		for _, e := range qrcEdges {
-			if e.b == b && e.i == i {
-				return false
-			}
-		}
-		return true
-	}
-	reachQ := c02ReachCut(fn.Blocks[0], isFirstTwo)
-	nq := 0
-	for _, r := range rets {
-		if !reachQ[r.Block()] || reach[r.Block()] {
-			continue
-		}
-		// r is reached via the Qrc edge
-		nq++
-		good := false
-		if bin, ok := r.Results[0].(*ssa.BinOp); ok && bin.Op == token.EQL {
-			for _, pv := range pvs {
-				if (c02IsMsgCallOn(bin.X, "Value", msg) && bin.Y == pv) || (c02IsMsgCallOn(bin.Y, "Value", msg) && bin.X == pv) {
-					good = true
-				}
-			}
-		} else {
-			for _, pv := range pvs {
-				for z, pol := range c02ZeroTests(fn, func(v ssa.Value) bool { return v == pv }) {
-					for _, cd := range an.CondsOn(fn, z) {
-						if cd.Other == nil && cd.Succ(pol).Dominates(r.Block()) && !an.CanReach(cd.Succ(!pol), r.Block(), nil) {
-							good = true
-						}
-					}
-				}
-				for _, in := range an.Instrs(fn, false) {
-					bin, ok := in.(*ssa.BinOp)
-					if !ok || bin.Op != token.EQL && bin.Op != token.NEQ {
-						continue
-					}
-					if !((c02IsMsgCallOn(bin.X, "Value", msg) && bin.Y == pv) || (c02IsMsgCallOn(bin.Y, "Value", msg) && bin.X == pv)) {
-						continue
-					}
-					for _, iff := range c02IfOf(bin) {
-						i := 0
-						if bin.Op == token.NEQ {
-							i = 1
-						}
-						if c02EdgeDom(iff.Block(), i, r.Block()) {
-							good = true
-						}
-					}
-				}
-			}
-		}
-		c.Check("isJustifiedPrePrepare proposes the justified prepared value", posOf(r), good,
-			"a pre-prepare justified by ROUND-CHANGEs is accepted although its value is not the prepared value of the justification (and that value is not null)")
-	}
-	if nq == 0 {
-		c.Unsure("isJustifiedPrePrepare proposes the justified prepared value", fn.Pos(), "no accepting return behind containsJustifiedQrc")
-	}
-}
-
-func c02Q4Qrc(c *rt.Ctx) {
-	fn := c.Fn(c02P + ".containsJustifiedQrc")
-	var pr, pv ssa.Value
-	var prCall ssa.CallInstruction
-	for _, ci := range an.Calls(fn, func(cc *ssa.CallCommon) bool { return c02Callee(cc) == c02P+".getSingleJustifiedPrPv" }, false) {
-		if prCall != nil {
-			c.Bail("containsJustifiedQrc: several getSingleJustifiedPrPv calls")
-		}
-		prCall = ci
-		for _, ref := range *ci.Value().Referrers() {
-			if ex, ok := ref.(*ssa.Extract); ok {
-				switch ex.Index {
-				case 0:
-					pr = ex
-				case 1:
-					pv = ex
-				}
-			}
-		}
-	}
-	if prCall == nil || pr == nil || pv == nil {
-		c.Bail("containsJustifiedQrc: getSingleJustifiedPrPv results not found")
-	}
-	// the ROUND-CHANGE list
-	var qrc ssa.Value
-	for _, in := range an.Instrs(fn, false) {
-		if call, ok := in.(*ssa.Call); ok {
-			if sp, ok := c02Filter(call, 0); ok {
-				if n, isC := an.ConstInt(sp.typ); isC && n == constOf(c, c02P, "MsgRoundChange") && sp.msgs == ssa.Value(fn.Params[1]) && sp.round == ssa.Value(fn.Params[2]) &&
-					sp.value == nil && sp.pr == nil && sp.pv == nil {
-					qrc = call
-				}
-			}
-		}
-	}
-	if qrc == nil {
-		c.Bail("containsJustifiedQrc: filterRoundChange(justification, round) not found")
-	}
-	// the prepares quorum is extracted from the same justification
-	c.Check("containsJustifiedQrc prepared quorum from the same justification", prCall.Pos(), prCall.Common().Args[1] == ssa.Value(fn.Params[1]),
-		"the justified (pr,pv) is not computed from the justification being checked")
-	var sinks []*ssa.Return
-	for _, r := range c02AcceptRets(fn, 1) {
-		if an.Dominates(prCall, r) {
-			sinks = append(sinks, r)
-		}
-	}
-	if len(sinks) == 0 {
-		c.Bail("containsJustifiedQrc: no accepting return after getSingleJustifiedPrPv")
-	}
-	for _, r := range sinks {
-		good, why := false, "no test `rc.PreparedRound() > pr` over the ROUND-CHANGE quorum"
-		for _, l := range c02LoopOver(fn, qrc) {
-			for _, b := range fn.Blocks {
-				if !l.Body[b] {
-					continue
-				}
-				iff, ok := b.Instrs[len(b.Instrs)-1].(*ssa.If)
-				if !ok {
-					continue
-				}
-				bin, ok := iff.Cond.(*ssa.BinOp)
-				if !ok {
-					continue
-				}
-				x, y, op := bin.X, bin.Y, bin.Op
-				if y2, ok := c02MsgCall(y, "PreparedRound"); ok && y2 != nil {
-					x, y, op = y, x, c02Flip(op)
-				}
-				recv, ok := c02MsgCall(x, "PreparedRound")
-				if !ok || !l.ElemOf(recv) || y != pr {
-					continue
-				}
-				var fail *ssa.BasicBlock
-				switch op {
-				case token.GTR:
-					fail = b.Succs[0]
-				case token.LEQ:
-					fail = b.Succs[1]
-				default:
-					continue
-				}
-				ok2, w := an.ForallGuard(l, iff, fail, r)
-				if ok2 {
-					good = true
-				} else {
-					why = w
-				}
-			}
-		}
-		c.Check("containsJustifiedQrc rejects higher prepared round", posOf(r), good,
-			"a ROUND-CHANGE quorum containing a higher prepared round than the justified one is accepted: "+why)
-		// returned value is the justified pv
-		c.Check("containsJustifiedQrc returns the justified value", posOf(r), r.Results[0] == pv, "the value returned with ok is not the pv of the prepared quorum")
-		// ok of getSingleJustifiedPrPv checked
-		g, w := an.Guarded(prCall, r, an.GuardOpt{BoolIdx: 2, BoolWant: true, NoErr: true})
-		c.Check("containsJustifiedQrc prepared quorum checked", posOf(r), g, "the ok result of getSingleJustifiedPrPv does not gate acceptance: "+w)
-	}
-}
-
 // ---------------------------------------------------------------------------------------------
 // Q5 — ROUND-CHANGE carries the prepared cells
-
-func c02Q5Rule(c *rt.Ctx) {
-	r := c02NewRun(c)
-	rcT := r.msgType("MsgRoundChange")
-	commitT := r.msgType("MsgCommit")
-	uponQP := constOf(c, c02P, "UponQuorumPrepares")
-	var rcs, commits []c02Bcast
-	for _, b := range r.bcasts() {
-		n, ok := an.ConstInt(b.args[1])
-		if !ok {
-			c.Unsure("Run broadcast with computed type", b.site.Pos(), "message type of a broadcast is not a constant")
-			continue
-		}
-		if n == rcT {
-			rcs = append(rcs, b)
-		}
-		if n == commitT {
-			commits = append(commits, b)
-		}
-	}
-	if len(rcs) == 0 {
-		c.Bail("Run: no ROUND-CHANGE broadcast")
-	}
-	names := []string{"preparedRound", "preparedValue", "preparedJustification"}
-	cells := make([]*ssa.Alloc, 3)
-	for _, b := range rcs {
-		for i := 0; i < 3; i++ {
-			cell := r.cellOf(b.args[6+i])
-			key := "Run ROUND-CHANGE carries " + names[i]
-			if cell == nil {
-				c.Bad(key, b.site.Pos(), "the ROUND-CHANGE broadcast does not send the "+names[i]+" state cell")
-				continue
-			}
-			if cell == r.cellOf(b.args[4]) {
-				c.Bad(key, b.site.Pos(), "the ROUND-CHANGE broadcast sends the current-round cell as "+names[i])
-				continue
-			}
-			if cells[i] != nil && cells[i] != cell {
-				c.Bad(key, b.site.Pos(), "ROUND-CHANGE broadcasts send different cells as "+names[i])
-				continue
-			}
-			cells[i] = cell
-			c.Good(key, b.site.Pos(), "argument is a load of state cell "+cell.Comment)
-		}
-		// the round sent is the current round cell
-	}
-	// the branch: true edge of rule == UponQuorumPrepares
-	var branch []*ssa.BasicBlock
-	for _, cd := range an.CondsOn(r.fn, r.ruleV) {
-		if n, ok := an.ConstInt(cd.Other); ok && n == uponQP && cd.Op == token.EQL {
-			t := cd.Succ(true)
-			if len(t.Preds) == 1 {
-				branch = append(branch, t)
-			}
-		}
-	}
-	if len(branch) == 0 {
-		c.Bail("Run: UponQuorumPrepares branch not found")
-	}
-	inBranch := func(b *ssa.BasicBlock) bool {
-		for _, t := range branch {
-			if t.Dominates(b) {
-				return true
-			}
-		}
-		return false
-	}
-	// the round cell: what the broadcasts send as round
-	roundCell := r.cellOf(rcs[0].args[4])
-	want := []func(v ssa.Value) bool{
-		func(v ssa.Value) bool {
-			return (roundCell != nil && r.cellOf(v) == roundCell) || c02IsMsgCallOn(v, "Round", r.recvMsg)
-		},
-		func(v ssa.Value) bool { return c02IsMsgCallOn(v, "Value", r.recvMsg) },
-		func(v ssa.Value) bool { return v == r.justV },
-	}
-	wantTxt := []string{"the current round", "msg.Value() of the PREPARE that completed the quorum", "the quorum of PREPAREs returned by classify"}
-	for i, cell := range cells {
-		if cell == nil {
-			continue
-		}
-		key := "Run " + names[i] + " written only in the quorum-prepares branch"
-		sts := r.stores(cell)
-		if len(sts) == 0 {
-			c.Bad(key, cell.Pos(), names[i]+" is never written: ROUND-CHANGE always claims nothing was prepared")
-			continue
-		}
-		for _, st := range sts {
-			switch {
-			case st.Parent() != r.fn || !inBranch(st.Block()):
-				c.Bad(key, posOf(st), names[i]+" is written outside the UponQuorumPrepares branch")
-			case !want[i](st.Val):
-				c.Bad(key, posOf(st), names[i]+" is not set to "+wantTxt[i])
-			default:
-				c.Good(key, posOf(st), "set to "+wantTxt[i])
-			}
-		}
-	}
-	// the three cells are written together: one block of the branch stores all of them
-	if cells[0] != nil && cells[1] != nil && cells[2] != nil {
-		for _, t := range branch {
-			together := false
-			for _, b := range r.fn.Blocks {
-				if !t.Dominates(b) {
-					continue
-				}
-				n := 0
-				for _, cell := range cells {
-					for _, st := range r.stores(cell) {
-						if st.Block() == b {
-							n++
-							break
-						}
-					}
-				}
-				if n == 3 {
-					together = true
-				}
-			}
-			c.Check("Run prepared cells written together", posOf(t.Instrs[0]), together, "the UponQuorumPrepares branch does not write all of preparedRound, preparedValue, preparedJustification in one step")
-		}
-	}
-	// the COMMIT sent in the branch carries the prepared value
-	for _, b := range commits {
-		if b.open || b.site.Parent() != r.fn {
-			continue
-		}
-		ok := inBranch(b.site.Block()) && (c02IsMsgCallOn(b.args[5], "Value", r.recvMsg) || (cells[1] != nil && r.cellOf(b.args[5]) == cells[1]))
-		c.Check("Run COMMIT carries the prepared value", b.site.Pos(), ok, "COMMIT is broadcast outside the quorum-prepares branch or for a value other than the prepared one")
-	}
-}
 
 // ---------------------------------------------------------------------------------------------
 
@@ -2005,21 +637,22 @@ func c02(c *rt.Ctx) {
 	c.Rule("Q1", 16, func() { c02Q1Rule(c) })
 	c.Rule("Q2", 2, func() { c02Q2Rule(c) })
 	c.Rule("Q3", 6, func() { c02Q3Rule(c) })
-	c.Rule("Q4", 22, func() { c02Q4Rule(c) })
+	c.Rule("Q4", 16, func() { c02Q4Rule(c) })
 	c.Rule("Q5", 14, func() { c02Q5Rule(c) })
 }
 
 func init() {
 	Register(&Prop{
 		ID: "C02",
-		Decides: "core/qbft: (Q1) every count compared with Quorum()/Faulty()+1 counts a source-unique collection (result of filterMsgs or a wrapper, a locally made map keyed by msg.Source(), " +
-			"a list/counter extended only on the true edge of uniq(elem), or a list fully scanned with rejection on !uniq(elem)), each function uses the threshold its protocol rule needs, and the uniqSource closure tests-and-sets; " +
-			"(Q2) in Run nothing received from Transport.Receive is buffered or classified unless isJustified accepted that very message; " +
-			"(Q3) between a round change that wipes the rule-dedup map and the PREPARE broadcast the key {rule, msg.Round()} is re-recorded; " +
-			"(Q4) isJustifiedRoundChange tests every accepted PREPARE for type, round == pr and value == pv; isJustifiedDecided counts COMMITs of the message's own justification filtered by its round and value; " +
-			"isJustifiedPrePrepare tests the leader and a non-zero value before accepting, accepts later rounds only through compareFailureRound+1 or a justified ROUND-CHANGE quorum and then only the justified value; " +
-			"containsJustifiedQrc rejects a quorum containing a higher prepared round; " +
-			"(Q5) every ROUND-CHANGE broadcast carries the preparedRound/preparedValue/preparedJustification cells, which are written only, and together, in the UponQuorumPrepares branch.",
+		Decides: "core/qbft, every clause decided by assumption-driven path exploration (c02Sim: branch conditions evaluated from the rule's assumption, the truth given at forks, phi edges and inlined in-package helpers/function literals) rather than by block shapes: " +
+			"(Q1) every comparison with Quorum()/Faulty()+1 (also through locals and helper parameters) counts a source-unique collection — result of a source-unique function or parameter whose callers all pass one, a locally made map keyed by msg.Source(), " +
+			"a list/counter that grows only where uniq(elem) answered true, or a list completely scanned with a repeated source leading to rejection before any accepting return — each protocol function uses the threshold its rule needs, and the uniqSource closure answers true only after testing and recording dedup[msg.Source()]; " +
+			"(Q2) in Run (function literals inlined) classify and every write of the message buffer are unreachable from the receive unless isJustified answered true for that very message; " +
+			"(Q3) from every round change that wipes the rule-dedup map, every path to a PREPARE broadcast re-records {rule, msg.Round()} of the message being handled; " +
+			"(Q4) isJustifiedRoundChange cannot accept when an element of the justification fails the type/round/value test; isJustifiedDecided cannot accept below a quorum of COMMITs of the message's own justification filtered by its round and value (filterMsgs call or hand-written filter); " +
+			"isJustifiedPrePrepare cannot accept when the leader test, the non-zero test, the round justification (round 1, compareFailureRound+1 or a justified ROUND-CHANGE quorum) or the proposed-value test fails; " +
+			"containsJustifiedQrc cannot accept when a ROUND-CHANGE of the quorum has a higher prepared round or the prepared quorum is not ok, and returns its pv; " +
+			"(Q5) every ROUND-CHANGE broadcast reads the preparedRound/preparedValue/preparedJustification state variables (captured locals, struct fields or loop-carried registers), which are assigned only when the rule is UponQuorumPrepares, all-or-none on every path, to the round / msg.Value() / classify's justification.",
 		NotDecided: "agreement itself (needs exploration of schedules and Byzantine behaviours); the arithmetic of Quorum()/Faulty(); leader election; timer behaviour.",
 		Run:        c02,
 		Mutants:    c02Mutants,
@@ -2163,6 +796,63 @@ var c02Mutants = []Mutant{
 	{ID: "C02-Q4-qrc-prepares-ok-ignored", File: "core/qbft/qbft.go", Expect: "Q4|prepared quorum checked",
 		Old: "\tpr, pv, ok := getSingleJustifiedPrPv(d, justification)\n\tif !ok {\n\t\treturn zeroVal[V](), false\n\t}\n",
 		New: "\tpr, pv, _ := getSingleJustifiedPrPv(d, justification)\n"},
+	// added with the path-exploration formulation (each targets a mechanism that a looser rule would lose)
+	{ID: "C02-Q1-roundchange-break-on-duplicate", File: "core/qbft/qbft.go", Expect: "Q1|isJustifiedRoundChange",
+		Old: "\t\tif !uniq(prepare) {\n\t\t\treturn false\n\t\t}",
+		New: "\t\tif !uniq(prepare) {\n\t\t\tbreak\n\t\t}"},
+	{ID: "C02-Q1-qrc-duplicate-kept-when-highest", File: "core/qbft/qbft.go", Expect: "Q1|getJustifiedQrc",
+		Old: "\t\t\tif !uniq(rc) {\n\t\t\t\tcontinue\n\t\t\t}",
+		New: "\t\t\tif !uniq(rc) && rc.PreparedRound() != pr {\n\t\t\t\tcontinue\n\t\t\t}"},
+	{ID: "C02-Q1-uniq-forgives-round-zero", File: "core/qbft/qbft.go", Expect: "Q1|uniqSource closure tests",
+		Old: "\t\tif dedup[msg.Source()] {\n\t\t\treturn false\n\t\t}\n\n\t\tdedup[msg.Source()] = true\n\n\t\treturn true",
+		New: "\t\tif dedup[msg.Source()] && msg.Round() > 0 {\n\t\t\treturn false\n\t\t}\n\n\t\tdedup[msg.Source()] = true\n\n\t\treturn true"},
+	{ID: "C02-Q1-uniq-records-only-later-rounds", File: "core/qbft/qbft.go", Expect: "Q1|uniqSource closure records",
+		Old: "\t\tdedup[msg.Source()] = true\n\n\t\treturn true",
+		New: "\t\tif msg.Round() > 1 {\n\t\t\tdedup[msg.Source()] = true\n\t\t}\n\n\t\treturn true"},
+	{ID: "C02-Q1-single-prpv-count-before-uniq", File: "core/qbft/qbft.go", Expect: "Q1|getSingleJustifiedPrPv",
+		Old: "\t\tif !uniq(msg) {\n\t\t\treturn 0, zeroVal[V](), false\n\t\t}\n\n\t\tif count == 0 {",
+		New: "\t\tif !uniq(msg) && count > 0 {\n\t\t\tcontinue\n\t\t}\n\n\t\tif count == 0 {"},
+	{ID: "C02-Q2-unjust-decided-passes", File: "core/qbft/qbft.go", Expect: "Q2",
+		Old: "\t\t\tif !isJustified(d, instance, msg, compareFailureRound) { // Drop unjust messages",
+		New: "\t\t\tif !isJustified(d, instance, msg, compareFailureRound) && msg.Type() != MsgDecided { // Drop unjust messages"},
+	{ID: "C02-Q2-verdict-of-other-round", File: "core/qbft/qbft.go", Expect: "Q2",
+		Old: "\t\t\tif !isJustified(d, instance, msg, compareFailureRound) { // Drop unjust messages",
+		New: "\t\t\tif msg.Round() == round && !isJustified(d, instance, msg, compareFailureRound) { // Drop unjust messages"},
+	{ID: "C02-Q3-rerecord-only-same-round", File: "core/qbft/qbft.go", Expect: "Q3|re-record",
+		Old: "\t\t\t\tdedupRules[dedupKey{UponRule: rule, Round: msg.Round()}] = true\n",
+		New: "\t\t\t\tif compareFailureRound == 0 {\n\t\t\t\t\tdedupRules[dedupKey{UponRule: rule, Round: msg.Round()}] = true\n\t\t\t\t}\n"},
+	{ID: "C02-Q4-roundchange-value-first-only", File: "core/qbft/qbft.go", Expect: "Q4|tested for value",
+		Old:  "\t\tif prepare.Value() != pv {\n\t\t\treturn false\n\t\t}\n",
+		New:  "\t\tif i == 0 && prepare.Value() != pv {\n\t\t\treturn false\n\t\t}\n",
+		More: [][2]string{{"\tfor _, prepare := range prepares {\n\t\tif !uniq(prepare) {", "\tfor i, prepare := range prepares {\n\t\tif !uniq(prepare) {"}}},
+	{ID: "C02-Q4-roundchange-type-break", File: "core/qbft/qbft.go", Expect: "Q4|tested for type",
+		Old: "\t\tif prepare.Type() != MsgPrepare {\n\t\t\treturn false",
+		New: "\t\tif prepare.Type() != MsgPrepare {\n\t\t\tbreak"},
+	{ID: "C02-Q4-qrc-higher-flag-overwritten", File: "core/qbft/qbft.go", Expect: "Q4|higher prepared round",
+		Old:  "\t\tif rc.PreparedRound() > pr {\n\t\t\treturn zeroVal[V](), false\n\t\t}",
+		New:  "\t\thigher = rc.PreparedRound() > pr",
+		More: [][2]string{{"\tvar found bool\n", "\tvar found, higher bool\n"}, {"\treturn pv, found\n", "\tif higher {\n\t\treturn zeroVal[V](), false\n\t}\n\n\treturn pv, found\n"}}},
+	{ID: "C02-Q4-preprepare-qrc-only-late-rounds", File: "core/qbft/qbft.go", Expect: "Q4|round justification",
+		Old: "\tpv, ok := containsJustifiedQrc(d, msg.Justification(), msg.Round())\n\tif !ok {\n\t\treturn false\n\t}\n",
+		New: "\tpv, ok := containsJustifiedQrc(d, msg.Justification(), msg.Round())\n\tif !ok && msg.Round() > 2 {\n\t\treturn false\n\t}\n"},
+	{ID: "C02-Q4-preprepare-leader-or-first-round", File: "core/qbft/qbft.go", Expect: "Q4|leader",
+		Old: "\tif !d.IsLeader(instance, msg.Round(), msg.Source()) {\n\t\treturn false",
+		New: "\tif !d.IsLeader(instance, msg.Round(), msg.Source()) && msg.Round() != 1 {\n\t\treturn false"},
+	{ID: "C02-Q4-decided-value-of-prepared", File: "core/qbft/qbft.go", Expect: "Q4|message's value",
+		Old: "\tv := msg.Value()\n\tcommits := filterMsgs(msg.Justification(), MsgCommit,",
+		New: "\tv := msg.PreparedValue()\n\tcommits := filterMsgs(msg.Justification(), MsgCommit,"},
+	{ID: "C02-Q4-qrc-pv-of-message", File: "core/qbft/qbft.go", Expect: "Q4|returns the justified value",
+		Old: "\t\tif rc.PreparedRound() == pr && rc.PreparedValue() == pv {\n\t\t\tfound = true\n\t\t}\n\t}\n\n\treturn pv, found",
+		New: "\t\tif rc.PreparedRound() == pr && rc.PreparedValue() == pv {\n\t\t\tfound = true\n\t\t}\n\t}\n\n\treturn qrc[0].PreparedValue(), found"},
+	{ID: "C02-Q5-justification-set-on-commits", File: "core/qbft/qbft.go", Expect: "Q5|preparedJustification written only",
+		Old: "\t\t\t\tqCommit = justification\n",
+		New: "\t\t\t\tqCommit = justification\n\t\t\t\tpreparedJustification = justification\n"},
+	{ID: "C02-Q5-prepared-value-only-later-rounds", File: "core/qbft/qbft.go", Expect: "Q5|written together",
+		Old: "\t\t\t\tpreparedValue = msg.Value()\n",
+		New: "\t\t\t\tif round > 1 {\n\t\t\t\t\tpreparedValue = msg.Value()\n\t\t\t\t}\n"},
+	{ID: "C02-Q5-commit-on-quorum-commits", File: "core/qbft/qbft.go", Expect: "Q5|COMMIT",
+		Old: "\t\t\t\tqCommit = justification\n",
+		New: "\t\t\t\tqCommit = justification\n\t\t\t\t_ = broadcastMsg(MsgCommit, msg.Value(), nil)\n"},
 	// Q5
 	{ID: "C02-Q5-roundchange-zero-pv", File: "core/qbft/qbft.go", Expect: "Q5|carries preparedValue",
 		Old: "zeroVal[V](), preparedRound, preparedValue, preparedJustification)",
